@@ -326,3 +326,381 @@ Section Faithful.
       rewrite IH2 by (auto; lia). reflexivity.
   Qed.
 End Faithful.
+
+(** ------------------------------------------------------------ identifiers *)
+
+Lemma ident_inv n : ident_ok n = true -> exists c r, n = c :: r /\ is_alpha c = true /\ forallb is_ident_char r = true.
+Proof. destruct n as [|c r]; [discriminate|]. cbn [ident_ok]. intros H. apply andb_true_iff in H as [H1 H2]. eauto. Qed.
+
+Lemma alpha_digit c : is_alpha c = true -> exists d, digit_val c = Some d /\ 10 <= d.
+Proof.
+  unfold is_alpha, digit_val. intros H.
+  replace ((48 <=? c) && (c <=? 57)) with false by lia.
+  destruct ((97 <=? c) && (c <=? 122)) eqn:E; [eexists; split; [reflexivity|lia]|].
+  replace ((65 <=? c) && (c <=? 90)) with true by lia. eexists; split; [reflexivity|lia].
+Qed.
+
+Lemma ident_no_prefix n : ident_ok n = true -> has_prefix s_0x n = false.
+Proof.
+  intros H. destruct (ident_inv n H) as [c [r [-> [Hc _]]]]. unfold s_0x. cbn [has_prefix].
+  unfold is_alpha in Hc. replace (48 =? c) with false by lia. reflexivity.
+Qed.
+
+Lemma ident_not_digits n acc : ident_ok n = true -> parse_digits 10 n acc = None.
+Proof.
+  intros H. destruct (ident_inv n H) as [c [r [-> [Hc _]]]]. cbn [parse_digits].
+  destruct (alpha_digit c Hc) as [d [-> Hd]]. replace (d <? 10) with false by lia. reflexivity.
+Qed.
+
+Lemma ident_not_uint n bits : ident_ok n = true -> parse_uint 10 bits n = Err.
+Proof. intros H. unfold parse_uint. rewrite ident_not_digits by exact H. destruct n; reflexivity. Qed.
+
+Lemma ident_not_int n bits : ident_ok n = true -> parse_int 10 bits n = Err.
+Proof.
+  intros H. destruct (ident_inv n H) as [c [r [E [Hc _]]]]. unfold parse_int. subst n.
+  unfold is_alpha in Hc. replace ((c =? 43) || (c =? 45)) with false by lia.
+  rewrite ident_not_digits by exact H. reflexivity.
+Qed.
+
+Lemma ident_char_tok c : is_ident_char c = true -> tok_char c = true.
+Proof. unfold is_ident_char, is_alpha, tok_char. lia. Qed.
+
+Lemma ident_tok n : ident_ok n = true -> tok_ok n = true.
+Proof.
+  intros H. destruct (ident_inv n H) as [c [r [-> [Hc Hr]]]]. cbn [tok_ok forallb].
+  rewrite ident_char_tok by (unfold is_ident_char; rewrite Hc; reflexivity). cbn [andb].
+  rewrite forallb_forall in *. intros x Hx. apply ident_char_tok, Hr, Hx.
+Qed.
+
+(** ------------------------------------------------------------ 32-bit flag sets *)
+
+Lemma bit_indices_spec i : In i bit_indices <-> 0 <= i < 32.
+Proof.
+  change bit_indices with (map Z.of_nat (seq 0 32)). rewrite in_map_iff. split.
+  - intros [k [<- Hk]]. apply in_seq in Hk. lia.
+  - intros H. exists (Z.to_nat i). split; [lia|]. apply in_seq. lia.
+Qed.
+
+Lemma testbit_high v n : - 2 ^ 31 <= v < 2 ^ 31 -> 31 <= n -> Z.testbit v n = (v <? 0).
+Proof.
+  intros Hv Hn. assert (Hp : 2 ^ 31 <= 2 ^ n) by (apply Z.pow_le_mono_r; lia).
+  destruct (v <? 0) eqn:E.
+  - apply Z.testbit_true; [lia|].
+    replace (v / 2 ^ n) with (-1); [reflexivity|]. apply Z.div_unique with (r := v + 2 ^ n); lia.
+  - apply Z.testbit_false; [lia|]. rewrite Z.div_small by lia. reflexivity.
+Qed.
+
+Lemma bit32_small i : 0 <= i < 31 -> bit32 i = 2 ^ i.
+Proof.
+  intros Hi. unfold bit32, to_i32.
+  assert (0 < 2 ^ i < 2 ^ 31) by (split; [apply Z.pow_pos_nonneg; lia|apply Z.pow_lt_mono_r; lia]).
+  rewrite Z.mod_small by lia. replace (2 ^ i <? 2 ^ 31) with true by lia. reflexivity.
+Qed.
+
+Lemma bit32_spec i n : 0 <= i < 32 -> 0 <= n ->
+  Z.testbit (bit32 i) n = if i <? 31 then n =? i else 31 <=? n.
+Proof.
+  intros Hi Hn. destruct (i <? 31) eqn:E.
+  - rewrite bit32_small by lia. rewrite Z.pow2_bits_eqb by lia. rewrite Z.eqb_sym. reflexivity.
+  - replace i with 31 by lia. change (bit32 31) with (- 2 ^ 31).
+    destruct (31 <=? n) eqn:En.
+    + rewrite testbit_high by lia. reflexivity.
+    + rewrite Z.bits_opp by lia. change (Z.pred (2 ^ 31)) with (Z.ones 31).
+      rewrite Z.ones_spec_low by lia. reflexivity.
+Qed.
+
+Definition lor_step (v : Z) (a i : Z) : Z := if Z.testbit v i then Z.lor a (bit32 i) else a.
+
+Lemma fold_lor_bits v l : forall acc n, 0 <= n ->
+  Z.testbit (fold_left (lor_step v) l acc) n =
+  Z.testbit acc n || existsb (fun i => Z.testbit v i && Z.testbit (bit32 i) n) l.
+Proof.
+  induction l as [|i l IH]; intros acc n Hn; cbn [fold_left existsb]; [rewrite orb_false_r; reflexivity|].
+  rewrite IH by exact Hn. unfold lor_step. destruct (Z.testbit v i); cbn [andb orb].
+  - rewrite Z.lor_spec, orb_assoc. reflexivity.
+  - reflexivity.
+Qed.
+
+(** or-ing the int32 values of the set bits of an int32 gives it back (bit 31 included) *)
+Lemma fold_lor_all v : in_i32 v = true -> fold_left (lor_step v) bit_indices 0 = v.
+Proof.
+  unfold in_i32. intros Hv. assert (Hr : - 2 ^ 31 <= v < 2 ^ 31) by lia.
+  apply Z.bits_inj'. intros n Hn. rewrite fold_lor_bits by exact Hn. rewrite Z.bits_0. cbn [orb].
+  destruct (Z.testbit v n) eqn:Et.
+  - apply existsb_exists. destruct (n <? 31) eqn:En.
+    + exists n. split; [apply bit_indices_spec; lia|]. rewrite Et, bit32_spec by lia.
+      replace (n <? 31) with true by lia. rewrite Z.eqb_refl. reflexivity.
+    + exists 31. split; [apply bit_indices_spec; lia|].
+      rewrite testbit_high in Et by lia. rewrite (testbit_high v 31) by lia. rewrite Et, bit32_spec by lia.
+      cbn [Z.ltb Z.compare Pos.compare Pos.compare_cont andb]. lia.
+  - destruct (existsb (fun i => Z.testbit v i && Z.testbit (bit32 i) n) bit_indices) eqn:Ex; [|reflexivity].
+    apply existsb_exists in Ex as [i [Hi Hb]]. apply bit_indices_spec in Hi.
+    apply andb_true_iff in Hb as [Hb1 Hb2]. rewrite bit32_spec in Hb2 by lia.
+    destruct (i <? 31) eqn:Ei.
+    + apply Z.eqb_eq in Hb2. subst i. congruence.
+    + assert (i = 31) by lia. subst i. rewrite testbit_high in Et by lia. rewrite testbit_high in Hb1 by lia. congruence.
+Qed.
+
+(** ------------------------------------------------------------ the two instances *)
+
+Lemma to_i32_id v : in_i32 v = true -> to_i32 v = v.
+Proof.
+  unfold in_i32, to_i32. intros H.
+  destruct (v <? 0) eqn:E.
+  - replace (v mod 2 ^ 32) with (v + 2 ^ 32) by (apply Z.mod_unique_pos with (q := -1); lia).
+    replace (v + 2 ^ 32 <? 2 ^ 31) with false by lia. lia.
+  - rewrite Z.mod_small by lia. replace (v <? 2 ^ 31) with true by lia. reflexivity.
+Qed.
+
+Lemma to_i64_id v : in_i64 v = true -> to_i64 v = v.
+Proof.
+  unfold in_i64, to_i64. intros H.
+  destruct (v <? 0) eqn:E.
+  - replace (v mod 2 ^ 64) with (v + 2 ^ 64) by (apply Z.mod_unique_pos with (q := -1); lia).
+    replace (v + 2 ^ 64 <? 2 ^ 63) with false by lia. lia.
+  - rewrite Z.mod_small by lia. replace (v <? 2 ^ 63) with true by lia. reflexivity.
+Qed.
+
+(** uint64(v) written in hex and converted back with int64(..) is v: both sides of the 2^52 switch *)
+Lemma to_i64_to_u64 v : in_i64 v = true -> to_i64 (to_u64 v) = v.
+Proof.
+  intros H. unfold to_u64. rewrite <- (to_i64_id v H) at 2. unfold to_i64. rewrite Z.mod_mod by lia. reflexivity.
+Qed.
+
+Lemma type_roundtrip ty : 1 <= ty <= 10 -> resolve_type (type_name ty) = ty /\ type_name ty <> [].
+Proof.
+  intros H.
+  assert (ty = 1 \/ ty = 2 \/ ty = 3 \/ ty = 4 \/ ty = 5 \/ ty = 6 \/ ty = 7 \/ ty = 8 \/ ty = 9 \/ ty = 10) as Hc by lia.
+  repeat (destruct Hc as [->|Hc]; [split; [reflexivity|discriminate]|]). subst. split; [reflexivity|discriminate].
+Qed.
+
+Lemma flat_map_all_nil {A B} (f : A -> list B) l : (forall x, In x l -> f x = []) -> flat_map f l = [].
+Proof. induction l as [|a l IH]; intros H; [reflexivity|]. cbn [flat_map]. rewrite (H a (or_introl eq_refl)), IH; [reflexivity|]. intros x Hx. apply H. right. exact Hx. Qed.
+
+Lemma filter_all {A} (f : A -> bool) l : (forall x, In x l -> f x = true) -> filter f l = l.
+Proof. induction l as [|a l IH]; intros H; [reflexivity|]. cbn [filter]. rewrite (H a (or_introl eq_refl)), IH; [reflexivity|]. intros x Hx. apply H. right. exact Hx. Qed.
+
+Section Instances.
+  Variable G : registry.
+
+  (** --- no operation of the text readers panics, whatever the registry and the input *)
+
+  Lemma enum_parse_returns rtag s : returns (enum_parse G rtag s).
+  Proof.
+    unfold enum_parse. destruct (has_prefix s_0x s) eqn:E.
+    - destruct (go_from_prefixed s E) as [r [_ ->]]. cbn [bind]. apply parse_uint_returns.
+    - pose proof (parse_uint_returns 10 32 s) as H. destruct (parse_uint 10 32 s); try exact I; try contradiction.
+      destruct (r_enum_by_name G rtag s); exact I.
+  Qed.
+
+  Lemma mask_part_returns rtag s : returns (mask_part G rtag s).
+  Proof.
+    unfold mask_part. destruct (has_prefix s_0x s) eqn:E.
+    - destruct (go_from_prefixed s E) as [r [_ ->]]. cbn [bind]. apply parse_uint_returns.
+    - pose proof (parse_int_returns 10 32 s) as H. destruct (parse_int 10 32 s); try exact I; try contradiction.
+      destruct (r_mask_by_name G rtag s); exact I.
+  Qed.
+
+  Lemma mask_fold_returns rtag parts : forall acc, returns (mask_fold G rtag parts acc).
+  Proof.
+    induction parts as [|p ps IH]; intros acc; cbn [mask_fold]; [exact I|].
+    apply returns_bind; [apply mask_part_returns|]. intros; apply IH.
+  Qed.
+
+  Lemma in_range_returns lo hi n : returns (in_range lo hi n).
+  Proof. unfold in_range. destruct ((n <? lo) || (hi <? n)); exact I. Qed.
+
+  Lemma xml_fmt_total : fmt_total (xml_fmt G).
+  Proof.
+    constructor; cbn [xml_fmt p_int p_long p_big p_enum p_bool p_text p_bytes p_date p_intv p_mask]; intros.
+    - apply returns_bind; [apply go_parse_int_returns|intros; exact I].
+    - apply go_parse_int_returns.
+    - apply returns_bind; [apply hex_decode_returns|intros; apply go_bytes_to_big_returns].
+    - apply enum_parse_returns.
+    - apply parse_bool_returns.
+    - exact I.
+    - apply hex_decode_returns.
+    - apply parse_rfc3339_returns.
+    - apply go_parse_uint_returns.
+    - apply mask_fold_returns.
+  Qed.
+
+  Lemma json_fmt_total : fmt_total (json_fmt G).
+  Proof.
+    constructor; cbn [json_fmt p_int p_long p_big p_enum p_bool p_text p_bytes p_date p_intv p_mask]; intros;
+      destruct raw; try exact I; unfold json_int64.
+    - apply returns_bind; [apply parse_int_returns|intros; apply in_range_returns].
+    - apply returns_bind; [apply go_parse_int_returns|intros; apply in_range_returns].
+    - apply parse_int_returns.
+    - apply go_parse_int_returns.
+    - apply parse_int_returns.
+    - destruct (has_prefix s_0x s) eqn:E; cbn [negb]; [|exact I].
+      destruct (go_from_prefixed s E) as [r [_ ->]]. cbn [bind].
+      apply returns_bind; [apply hex_decode_returns|intros; apply go_bytes_to_big_returns].
+    - apply returns_bind; [apply parse_int_returns|intros; apply in_range_returns].
+    - apply enum_parse_returns.
+    - apply returns_bind; [apply go_parse_int_returns|intros; exact I].
+    - apply hex_decode_returns.
+    - destruct (has_prefix s_0x s) eqn:E; [|apply parse_rfc3339_returns].
+      destruct (go_from_prefixed s E) as [r [_ ->]]. cbn [bind].
+      apply returns_bind; [apply parse_uint_returns|]. intros u _.
+      destruct (to_i64 u <? 0); [exact I|]. destruct (date_max <? to_i64 u); exact I.
+    - apply returns_bind; [apply parse_int_returns|intros; apply in_range_returns].
+    - apply go_parse_uint_returns.
+    - apply returns_bind; [apply parse_int_returns|intros; apply in_range_returns].
+    - apply mask_fold_returns.
+  Qed.
+
+  (** C02, text part: Unmarshal into ttlv.Value and every typed re-read return on ANY document *)
+  Theorem xml_unmarshal_returns doc cut : returns (xml_unmarshal G doc cut).
+  Proof.
+    unfold xml_unmarshal. apply returns_bind.
+    - unfold xml_cursor. destruct doc; [exact I|apply c_open_returns].
+    - intros c _. apply returns_bind; [|intros; exact I]. apply dec_value_returns; [apply xml_fmt_total|lia].
+  Qed.
+
+  Theorem xml_reread_returns script doc cut : returns (xml_reread G script doc cut).
+  Proof.
+    unfold xml_reread. apply returns_bind.
+    - unfold xml_cursor. destruct doc; [exact I|apply c_open_returns].
+    - intros c _. apply returns_bind; [|intros; exact I]. apply read_as_returns, xml_fmt_total.
+  Qed.
+
+  Theorem json_unmarshal_returns doc : returns (json_unmarshal G doc).
+  Proof.
+    unfold json_unmarshal. apply returns_bind; [apply c_open_returns|].
+    intros c _. apply returns_bind; [|intros; exact I]. apply dec_value_returns; [apply json_fmt_total|lia].
+  Qed.
+
+  Theorem json_reread_returns script doc : returns (json_reread G script doc).
+  Proof.
+    unfold json_reread. apply returns_bind; [apply c_open_returns|].
+    intros c _. apply returns_bind; [|intros; exact I]. apply read_as_returns, json_fmt_total.
+  Qed.
+
+  (** --- round trips, for a hygienic registry *)
+  Hypothesis Hok : registry_ok G.
+
+  Lemma resolve_tag_named t n : r_tag_name G t = Some n -> resolve_tag G n = t.
+  Proof.
+    intros Hn. destruct (rk_tag G Hok t n Hn) as [Hid [_ Hrev]].
+    destruct (ident_inv n Hid) as [c [r [E _]]]. unfold resolve_tag.
+    rewrite ident_no_prefix by exact Hid. rewrite Hrev. subst n. reflexivity.
+  Qed.
+
+  Lemma resolve_tag_hex t : tag_ok t = true -> resolve_tag G (tag_hex t) = t.
+  Proof.
+    unfold tag_ok. intros Ht. unfold resolve_tag, tag_hex. change (s_0x ++ hex_pad 6 true t) with (48 :: 120 :: hex_pad 6 true t).
+    change (has_prefix s_0x (48 :: 120 :: hex_pad 6 true t)) with true. cbv iota.
+    change (drop 2 (48 :: 120 :: hex_pad 6 true t)) with (hex_pad 6 true t).
+    unfold hex_pad. rewrite parse_int_pad by lia. reflexivity.
+  Qed.
+
+  Lemma resolve_tag_string t : tag_ok t = true -> resolve_tag G (tag_string G t) = t.
+  Proof.
+    intros Ht. unfold tag_string. destruct (r_tag_name G t) as [n|] eqn:E; [apply resolve_tag_named, E|apply resolve_tag_hex, Ht].
+  Qed.
+
+  (** an enumeration value, named or not, is read back (xmlReader.Enum, jsonReader.Enum string form) *)
+  Lemma enum_roundtrip etag v : in_u32 v = true -> enum_parse G etag (enum_string G etag v) = Ok v.
+  Proof.
+    unfold in_u32. intros Hv. unfold enum_string.
+    assert (Hhex : enum_parse G etag (s_0x ++ hex_pad 8 true v) = Ok v).
+    { unfold enum_parse. rewrite has_prefix_0x_cons, go_from_0x. cbn [bind]. apply parse_hex_pad. lia. }
+    destruct (r_enum_name G etag v) as [[|c n]|] eqn:E; try exact Hhex.
+    destruct (rk_enum G Hok etag v (c :: n) E) as [Hid Hrev].
+    unfold enum_parse. rewrite ident_no_prefix, ident_not_uint by exact Hid. rewrite Hrev. reflexivity.
+  Qed.
+
+  Definition mask_part_of (names : list (list Z)) (i : Z) : list (list Z) :=
+    match nth_error names (Z.to_nat i) with
+    | Some [] => []
+    | Some n => [n]
+    | None => [s_0x ++ hex_pad 8 true (2 ^ i)]
+    end.
+
+  Lemma hex_tok w n : 0 <= n -> tok_ok (s_0x ++ hex_pad w true n) = true.
+  Proof.
+    intros Hn. unfold s_0x. cbn [app tok_ok forallb]. change (tok_char 48) with true. change (tok_char 120) with true. cbn [andb].
+    apply forallb_forall. apply Forall_forall. unfold hex_pad. apply pad_left_chars; [reflexivity|].
+    apply digits_chars; [lia|lia|]. intros d Hd. unfold digit_char, tok_char. destruct (d <? 10) eqn:E; lia.
+  Qed.
+
+  (** each flag the writers emit for bit i is a token that the readers turn back into bit i *)
+  Lemma mask_part_of_spec mtag i : 0 <= i < 32 ->
+    exists p, mask_part_of (r_mask_names G mtag) i = [p] /\ tok_ok p = true /\
+              exists x, mask_part G mtag p = Ok x /\ to_i32 x = bit32 i.
+  Proof.
+    intros Hi. unfold mask_part_of. destruct (nth_error (r_mask_names G mtag) (Z.to_nat i)) as [n|] eqn:E.
+    - destruct (rk_mask G Hok mtag _ n E) as [_ [Hid Hrev]]. rewrite Z2Nat.id in Hrev by lia.
+      destruct (ident_inv n Hid) as [c [r [En _]]]. subst n. exists (c :: r). split; [reflexivity|]. split; [apply ident_tok, Hid|].
+      exists (bit32 i). split.
+      + unfold mask_part. rewrite ident_no_prefix, ident_not_int by exact Hid. rewrite Hrev. reflexivity.
+      + destruct (Z.eq_dec i 31) as [->|Hne]; [reflexivity|]. rewrite bit32_small by lia. fold (bit32 i). rewrite bit32_small by lia. reflexivity.
+    - assert (0 < 2 ^ i < 2 ^ 32) by (split; [apply Z.pow_pos_nonneg; lia|apply Z.pow_lt_mono_r; lia]).
+      eexists. split; [reflexivity|]. split; [apply hex_tok; lia|].
+      exists (2 ^ i). split; [|reflexivity].
+      unfold mask_part. rewrite has_prefix_0x_cons, go_from_0x. cbn [bind]. apply parse_hex_pad. lia.
+  Qed.
+
+  Lemma mask_parts_eq names v :
+    mask_parts names v = flat_map (fun i => if Z.testbit v i then mask_part_of names i else []) bit_indices.
+  Proof. reflexivity. Qed.
+
+  Lemma mask_fold_app rtag a : forall b acc,
+    mask_fold G rtag (a ++ b) acc = do x <- mask_fold G rtag a acc ;; mask_fold G rtag b x.
+  Proof.
+    induction a as [|p a IH]; intros b acc; [reflexivity|]. cbn [app mask_fold].
+    destruct (mask_part G rtag p); cbn [bind]; try reflexivity. apply IH.
+  Qed.
+
+  Lemma mask_parts_fold mtag v l : (forall i, In i l -> 0 <= i < 32) -> forall acc,
+    let parts := flat_map (fun i => if Z.testbit v i then mask_part_of (r_mask_names G mtag) i else []) l in
+    Forall (fun p => tok_ok p = true) parts /\
+    mask_fold G mtag parts acc = Ok (fold_left (lor_step v) l acc).
+  Proof.
+    induction l as [|i l IH]; intros Hl acc; cbn [flat_map fold_left]; [split; [constructor|reflexivity]|].
+    destruct (IH (fun j Hj => Hl j (or_intror Hj)) (lor_step v acc i)) as [IH1 IH2].
+    assert (Es : lor_step v acc i = (if Z.testbit v i then Z.lor acc (bit32 i) else acc)) by reflexivity.
+    destruct (Z.testbit v i) eqn:Et; rewrite Es in IH2; rewrite Es.
+    - destruct (mask_part_of_spec mtag i (Hl i (or_introl eq_refl))) as [p [-> [Htok [x [Hx Hxi]]]]].
+      cbn [app]. split; [constructor; assumption|]. cbn [mask_fold]. rewrite Hx. cbn [bind]. rewrite Hxi. exact IH2.
+    - cbn [app]. split; [exact IH1|exact IH2].
+  Qed.
+
+  Lemma mask_string_join mtag v sep : mask_string G mtag v sep = join sep (mask_parts (r_mask_names G mtag) v).
+  Proof.
+    unfold mask_string. destruct (v =? 0) eqn:E; [|reflexivity]. apply Z.eqb_eq in E. subst v.
+    rewrite mask_parts_eq. replace (flat_map _ bit_indices) with (@nil (list Z)); [reflexivity|].
+    symmetry. apply flat_map_all_nil. intros i _. rewrite Z.bits_0. reflexivity.
+  Qed.
+
+  (** a flag set is read back by xmlReader.Bitmask: every int32, named and unnamed bits, bit 31, 0 *)
+  Lemma xml_mask_roundtrip mtag v : in_i32 v = true ->
+    mask_fold G mtag (map trim_space (fields (mask_string G mtag v [32]))) 0 = Ok v.
+  Proof.
+    intros Hv. rewrite mask_string_join, mask_parts_eq.
+    destruct (mask_parts_fold mtag v bit_indices (fun i Hi => proj1 (bit_indices_spec i) Hi) 0) as [Htok Hfold].
+    cbv zeta in Htok, Hfold. rewrite fields_join by exact Htok.
+    rewrite (map_ext_in trim_space (fun p => p)), map_id.
+    - rewrite Hfold, fold_lor_all by exact Hv. reflexivity.
+    - intros p Hp. apply trim_space_tok. rewrite Forall_forall in Htok. apply Htok, Hp.
+  Qed.
+
+  (** ... and by jsonReader.Bitmask (as repaired: the empty string is the empty set) *)
+  Lemma json_mask_roundtrip mtag v : in_i32 v = true ->
+    mask_fold G mtag (filter (fun p => match p with [] => false | _ => true end)
+                        (map trim_space (split_on 124 (mask_string G mtag v [124])))) 0 = Ok v.
+  Proof.
+    intros Hv. rewrite mask_string_join, mask_parts_eq.
+    destruct (mask_parts_fold mtag v bit_indices (fun i Hi => proj1 (bit_indices_spec i) Hi) 0) as [Htok Hfold].
+    cbv zeta in Htok, Hfold. rewrite fold_lor_all in Hfold by exact Hv.
+    destruct (flat_map (fun i => if Z.testbit v i then mask_part_of (r_mask_names G mtag) i else []) bit_indices) as [|p ps] eqn:Ep.
+    - cbn. cbn in Hfold. exact Hfold.
+    - rewrite split_join by exact Htok.
+      rewrite (map_ext_in trim_space (fun p => p)), map_id.
+      + rewrite filter_all; [exact Hfold|].
+        intros q Hq. rewrite Forall_forall in Htok. specialize (Htok q Hq). destruct q; [discriminate|reflexivity].
+      + intros q Hq. apply trim_space_tok. rewrite Forall_forall in Htok. apply Htok, Hq.
+  Qed.
+End Instances.
